@@ -1,7 +1,7 @@
 (* C18 — keys, signatures, addresses and number encodings obey their algebra.
    Statements only; every proof is [exact lemma]. *)
 From NG Require Import Common.Tactics Codec.Bigint Codec.BigintProofs.
-From NG Require Import Codec.Base58 Codec.Base58Proofs Codec.Fixed Codec.FixedProofs Codec.UintStr Codec.Merkle Codec.MerkleProofs Codec.Multisig Codec.MultisigProofs Codec.Nep2 Codec.Nep2Proofs.
+From NG Require Import Codec.Base58 Codec.Base58Proofs Codec.Fixed Codec.FixedProofs Codec.UintStr Codec.Merkle Codec.MerkleProofs Codec.Multisig Codec.MultisigProofs Codec.Nep2 Codec.Nep2Proofs Codec.EmitInt.
 Open Scope Z_scope.
 
 (* VM integers decode back to exactly what was encoded *)
@@ -301,3 +301,46 @@ Example C18_nep2_example :
   toy_decrypt no_fold (toy_encrypt fold_fi toy_key pass_lig) pass_lig = None /\
   toy_decrypt no_fold (toy_encrypt fold_fi toy_key pass_lig) pass_fi = Some toy_key.
 Proof. pose proof nep2_toy_examples as (A & B & C & D & E & _). repeat split; assumption. Qed.
+
+(* ---------- the integer emitter (emit.BigInt / Int, behind Any / Array / StackItem, the builders and the compiler) ---------- *)
+(* whatever is written for an integer of the VM range is one instruction that, decoded by the VM model (VM/Decode.v) with
+   the value VM/Data.v pushes, gives the integer back: small forms, width choice and sign extension included *)
+Theorem C18_emit_int_roundtrip : forall try_small n, in_int256 n = true ->
+  exists s, emit_gen pad_right try_small n = Some s /\ decode_pushint s = Some n.
+Proof. exact emit_decode. Qed.
+Print Assumptions C18_emit_int_roundtrip.
+
+(* the sign extension of padRight keeps the value, for every operand width *)
+Theorem C18_emit_sign_extension : forall s buf, buf <> [] -> from_bytes (pad_right s buf) = from_bytes buf.
+Proof. exact pad_right_value. Qed.
+Print Assumptions C18_emit_sign_extension.
+
+(* outside [-2^255, 2^255) nothing is written *)
+Theorem C18_emit_int_refuses_out_of_range : forall try_small n, in_int256 n = false -> emit_gen pad_right try_small n = None.
+Proof. exact emit_refuses_out_of_range. Qed.
+Print Assumptions C18_emit_int_refuses_out_of_range.
+
+(* the opcode is the narrowest that fits: no PUSHINT* operand of a smaller width denotes n *)
+Theorem C18_emit_int_width_minimal : forall n s, in_int256 n = true -> emit_gen pad_right false n = Some s -> n <> 0 ->
+  forall k' param, bytes_ok param -> length param = (2 ^ k')%nat -> from_bytes param = n -> (emitted_width s <= 2 ^ k')%nat.
+Proof. exact emit_width_minimal. Qed.
+Print Assumptions C18_emit_int_width_minimal.
+
+(* a padding that fills at most 8 bytes with 0xFF (and leaves the zeroes of the fresh buffer above) is not an emitter *)
+Theorem C18_emit_capped_padding_refuted :
+  ~ (forall n, in_int256 n = true -> exists s, emit_capped8 n = Some s /\ decode_pushint s = Some n).
+Proof. exact emit_capped8_refuted. Qed.
+Print Assumptions C18_emit_capped_padding_refuted.
+
+(* non-vacuity: -2^130 (17 bytes minimal) is PUSHINT256; capped at 8 it reads back as 2^200 - 2^130; 16-byte and 24-byte
+   negatives and every positive are unaffected by the cap *)
+Example C18_emit_int_example :
+  (exists s, emit_bigint (- 2 ^ 130) = Some s /\ length s = 33%nat /\ decode_pushint s = Some (- 2 ^ 130))
+  /\ (exists s, emit_capped8 (- 2 ^ 130) = Some s /\ length s = 33%nat /\ decode_pushint s = Some (2 ^ 200 - 2 ^ 130))
+  /\ (exists s, emit_capped8 (- 2 ^ 127) = Some s /\ decode_pushint s = Some (- 2 ^ 127))
+  /\ emit_bigint (2 ^ 255) = None /\ emit_bigint (- 2 ^ 255 - 1) = None
+  /\ emit_bigint (-1) = Some [15] /\ emit_bigint 16 = Some [0; 16] /\ emit_bigint 128 = Some [1; 128; 0] /\ emit_bigint (-129) = Some [1; 127; 255].
+Proof.
+  destruct emit_capped8_examples as (A & B & C & _).
+  split; [exact B|]. split; [exact A|]. split; [exact C|]. repeat split; vm_compute; reflexivity.
+Qed.
